@@ -14,7 +14,7 @@ package internal
 //@   ensures[C08.finite]    avgOK && err == nil && abs(real(lastValue)) <= 1.0e300 ==> fin(sensors.avgOf(s))
 //@   ensures[C08.hull]      avgOK && err == nil && abs(real(lastValue)) <= 1.0e300 && (lastValue == old(sensors.avgOf(s)) || abs(real(lastValue)) >= 1.0e-270 || abs(real(old(sensors.avgOf(s)))) >= 1.0e-270) && configuration.CurrentConfig.TempRollingWindowSize >= 2 ==> min(old(sensors.avgOf(s)), lastValue) <= sensors.avgOf(s) && sensors.avgOf(s) <= max(old(sensors.avgOf(s)), lastValue)
 //@   ensures[C08.readfin]   avgOK && err == nil ==> fin(lastValue)
-//@   modifies lastValue, lastAvgRead, s.(*sensors.HwmonSensor).MovingAvg, s.(*sensors.FileSensor).MovingAvg, s.(*sensors.CmdSensor).MovingAvg, s.(*sensors.VirtualSensor).Value, lastReadFailed, procWorld, started
+//@   modifies lastValue, lastAvgRead, s.(*sensors.HwmonSensor).MovingAvg, s.(*sensors.FileSensor).MovingAvg, s.(*sensors.CmdSensor).MovingAvg, s.(*sensors.VirtualSensor).Value, lastReadFailed, enableReads, procWorld, started
 
 // ---- daemon wiring: signal actor (C03) ------------------------------------------------------------------
 //@ extern func builtin.close(ch any)
@@ -50,7 +50,7 @@ package internal
 //@   props C09 C03
 //@   requires sensors.sensorWF(s.sensor) && ctx != nil && configuration.CurrentConfig.TempRollingWindowSize >= 1 && configuration.CurrentConfig.TempRollingWindowSize <= 1000000000
 //@   ensures[C09.noerr C03] result == nil
-//@   modifies s.sensor.(*sensors.HwmonSensor).MovingAvg, s.sensor.(*sensors.FileSensor).MovingAvg, s.sensor.(*sensors.CmdSensor).MovingAvg, s.sensor.(*sensors.VirtualSensor).Value, lastValue, lastAvgRead, lastReadFailed, procWorld, started
+//@   modifies s.sensor.(*sensors.HwmonSensor).MovingAvg, s.sensor.(*sensors.FileSensor).MovingAvg, s.sensor.(*sensors.CmdSensor).MovingAvg, s.sensor.(*sensors.VirtualSensor).Value, lastValue, lastAvgRead, lastReadFailed, enableReads, procWorld, started
 //@   loop 1 ""
 //@     invariant sensors.sensorWF(s.sensor) && ctx != nil && tick != nil
 
